@@ -298,7 +298,10 @@ impl<D: TextDecorator> SubRenderer<D> {
         &&& lines_ok(self.lines@, self.width, self.options.allow_width_overflow)
     }
     // A5 (boundary): accumulated widths are far from overflowing when a public operation starts
-    spec fn headroom(&self) -> bool { self.wrapping matches Some(w) ==> w.wslen + w.wordlen + w.width + w.word.len <= 0x2000_0000_0000_0000 }
+    spec fn wtotal(&self) -> int { match self.wrapping { Some(w) => w.total(), None => self.width as int } }
+    // public operations start with `headroom`; each inline text of a short string uses at most 2^34 of it
+    spec fn headroom(&self) -> bool { self.wtotal() <= 0x1000_0000_0000_0000 }
+    spec fn room(&self) -> bool { self.wtotal() <= 0x2000_0000_0000_0000 }
     // what inline operations must leave alone
     spec fn same_stacks(&self, o: &Self) -> bool {
         self.ann_stack@ == o.ann_stack@ && self.ws_stack@ == o.ws_stack@ && self.pre_depth == o.pre_depth && self.text_filter_stack@ == o.text_filter_stack@
@@ -352,8 +355,8 @@ impl<D: TextDecorator> SubRenderer<D> {
             final(self).same_stacks(old(self)) && final(self).same_config(old(self)) && final(self).wrapping == old(self).wrapping && final(self).at_block_end == old(self).at_block_end && final(self).decorator == old(self).decorator, //@w @C09 #add_line_frame
             final(self).lines@.len() == old(self).lines@.len() + 1 && final(self).lines@.drop_last() == old(self).lines@, //@w @C03 #add_line_appends_one
             // pending fragment markers are prepended to the next TEXT line, exactly once (C14) … //@w
-            old(self).pending_frags@.len() > 0 && line is Text ==> final(self).pending_frags@.len() == 0 //@w[ @C14 #pending_markers_go_to_next_text_line
-                && (final(self).lines@.last() matches RenderLine::Text(t2) && flat(t2.v@) =~= flat(old(self).pending_frags@) + flat(line->Text_0.v@) && t2.len == line->Text_0.len), //@w]
+            old(self).pending_frags@.len() > 0 && line is Text ==> final(self).pending_frags@.len() == 0 //@w @C14 #pending_markers_go_to_next_text_line
+                && (final(self).lines@.last() matches RenderLine::Text(t2) && flat(t2.v@) =~= flat(old(self).pending_frags@) + flat(line->Text_0.v@) && t2.len == line->Text_0.len), //@w @C14 #pending_markers_go_to_next_text_line
             // … and stay pending across border lines //@w
             line is Line ==> final(self).pending_frags@ == old(self).pending_frags@ && final(self).lines@.last() == line, //@w @C14 #border_keeps_markers_pending
             old(self).pending_frags@.len() == 0 ==> final(self).pending_frags@.len() == 0 && final(self).lines@.last() == line, //@w @C03 #line_added_verbatim
@@ -366,35 +369,33 @@ impl<D: TextDecorator> SubRenderer<D> {
                     proof { lemma_no_str_cwid(frags@); } //@w
                     let ghost pf = frags@; //@w
                     for frag in it: frags
-                        invariant //@w[
+                        invariant //@w
                             it.seq() == frags@, frags@ == pf, no_str(pf), all_some(pf), tag_ok::<Vec<D::Annotation>>(), //@w
                             tl.wf(), tl.len == 0, flat(tl.v@) =~= flat(pf.take(it.index@)), //@w
-                        //@w]
                     {
-                        proof { //@w[
+                        proof { //@w
                             let k = it.index@; //@w
                             assert(pf.take(k + 1) =~= pf.take(k).push(pf[k])); //@w
                             lemma_flat_push(pf.take(k), pf[k]); //@w
                             assert(!(pf[k] is Str)); //@w
-                        } //@w]
+                        } //@w
                         tl.push(frag);
                     }
                     let parts = tagged_line.v;
                     proof { assert(pf.take(pf.len() as int) =~= pf); } //@w
                     let ghost tv = parts@; //@w
                     for part in it2: parts
-                        invariant //@w[
+                        invariant //@w
                             it2.seq() == parts@, parts@ == tv, tag_ok::<Vec<D::Annotation>>(), cwid(tv) == tagged_line.len, tagged_line.len <= 0x4000_0000_0000_0000, //@w
                             tl.wf(), tl.len == cwid(tv.take(it2.index@)), flat(tl.v@) =~= flat(pf) + flat(tv.take(it2.index@)), //@w
-                        //@w]
                     {
-                        proof { //@w[
+                        proof { //@w
                             let k = it2.index@; //@w
                             assert(tv.take(k + 1) =~= tv.take(k).push(tv[k])); //@w
                             lemma_flat_push(tv.take(k), tv[k]); //@w
                             lemma_flat_concat(tv.take(k + 1), tv.skip(k + 1)); //@w
                             assert(tv.take(k + 1) + tv.skip(k + 1) =~= tv); //@w
-                        } //@w]
+                        } //@w
                         tl.push(part);
                     }
                     proof { assert(tv.take(tv.len() as int) =~= tv); } //@w
@@ -422,35 +423,34 @@ impl<D: TextDecorator> SubRenderer<D> {
             old(self).options.allow_width_overflow ==> r.is_ok(), //@w @C11 #flush_wrapping_overflow_ok
             final(self).lines@.len() >= old(self).lines@.len() && final(self).lines@.take(old(self).lines@.len() as int) =~= old(self).lines@, //@w @C03 #flush_wrapping_keeps_lines
             // markers recorded after the last word of the block are not lost: they become pending for the next text line (C14) //@w
-            r.is_ok() && (old(self).wrapping matches Some(w) && no_str(w.word.v@)) ==> //@w[ @C14 #trailing_markers_become_pending
+            r.is_ok() && (old(self).wrapping matches Some(w) && no_str(w.word.v@)) ==> //@w @C14 #trailing_markers_become_pending
                 final(self).pending_frags@.len() >= (old(self).wrapping->Some_0).word.v@.len() //@w
-                && final(self).pending_frags@.skip(final(self).pending_frags@.len() - (old(self).wrapping->Some_0).word.v@.len()) =~= (old(self).wrapping->Some_0).word.v@, //@w]
+                && final(self).pending_frags@.skip(final(self).pending_frags@.len() - (old(self).wrapping->Some_0).word.v@.len()) =~= (old(self).wrapping->Some_0).word.v@, //@w @C14 #trailing_markers_become_pending
     {
         if let Some(mut w) = self.wrapping.take() {
             let frags = w.take_trailing_fragments();
-            proof { //@w[
+            proof { //@w
                 assert forall|i: int| 0 <= i < frags@.len() implies elt_some(#[trigger] frags@[i]) by { assert(!(frags@[i] is Str)); } //@w
-            } //@w]
+            } //@w
             let ghost w1 = w; //@w
             let ls = w.into_lines()?;
             for l in it: ls
-                invariant //@w[
+                invariant //@w
                     it.seq() == ls@, tag_ok::<Vec<D::Annotation>>(), self.sr_inv(), self.wrapping.is_none(), //@w
                     self.same_stacks(old(self)) && self.same_config(old(self)) && self.decorator == old(self).decorator && self.at_block_end == old(self).at_block_end, //@w
                     forall|i: int| 0 <= i < ls@.len() ==> (#[trigger] ls@[i]).wf() && fits(ls@[i], w1.width, w1.allow_overflow), //@w
                     w1.width <= self.width && w1.allow_overflow == self.options.allow_width_overflow && self.width <= 0x1000_0000_0000_0000, //@w
                     self.lines@.len() >= old(self).lines@.len() && self.lines@.take(old(self).lines@.len() as int) =~= old(self).lines@, //@w
-                //@w]
             {
                 self.add_line(RenderLine::Text(l));
             }
 
             vec_extend(&mut self.pending_frags, frags);
-            proof { //@w[
+            proof { //@w
                 let p = self.pending_frags@; //@w
                 assert(p.skip(p.len() - frags@.len()) =~= frags@); //@w
                 assert(lines_ok(self.lines@, self.width, self.options.allow_width_overflow)); //@w
-            } //@w]
+            } //@w
         }
         Ok(())
     }
@@ -465,6 +465,7 @@ impl<D: TextDecorator> SubRenderer<D> {
             final(self).same_stacks(old(self)) && final(self).same_config(old(self)) && final(self).decorator == old(self).decorator, //@w @C09
             r.is_ok() ==> final(self).wrapping.is_none(), //@w @C03
             old(self).options.allow_width_overflow ==> r.is_ok(), //@w @C11
+            r.is_ok() ==> final(self).wtotal() <= old(self).wtotal() + 0x4_0000_0000 || final(self).wtotal() <= old(self).width + 0x4_0000_0000, //@w @C01 #growth_bound
             final(self).lines@.len() >= old(self).lines@.len() && final(self).lines@.take(old(self).lines@.len() as int) =~= old(self).lines@, //@w @C03
             final(self).at_block_end == old(self).at_block_end, //@w
     {
@@ -482,6 +483,7 @@ impl<D: TextDecorator> SubRenderer<D> {
             final(self).same_stacks(old(self)) && final(self).same_config(old(self)) && final(self).decorator == old(self).decorator, //@w @C09
             r.is_ok() ==> final(self).wrapping.is_none(), //@w @C03
             old(self).options.allow_width_overflow ==> r.is_ok(), //@w @C11
+            r.is_ok() ==> final(self).wtotal() <= old(self).wtotal() + 0x4_0000_0000 || final(self).wtotal() <= old(self).width + 0x4_0000_0000, //@w @C01 #growth_bound
             final(self).lines@.len() >= old(self).lines@.len() && final(self).lines@.take(old(self).lines@.len() as int) =~= old(self).lines@, //@w @C03
             r.is_ok() ==> !final(self).at_block_end && final(self).lines@.len() >= old(self).lines@.len() + 1, //@w @C12 #empty_line_added
     {
@@ -505,6 +507,7 @@ impl<D: TextDecorator> SubRenderer<D> {
             final(self).same_stacks(old(self)) && final(self).same_config(old(self)) && final(self).decorator == old(self).decorator, //@w @C09
             r.is_ok() ==> final(self).wrapping.is_none(), //@w @C03
             old(self).options.allow_width_overflow ==> r.is_ok(), //@w @C11
+            r.is_ok() ==> final(self).wtotal() <= old(self).wtotal() + 0x4_0000_0000 || final(self).wtotal() <= old(self).width + 0x4_0000_0000, //@w @C01 #growth_bound
             final(self).lines@.len() >= old(self).lines@.len() && final(self).lines@.take(old(self).lines@.len() as int) =~= old(self).lines@, //@w @C03
             r.is_ok() ==> !final(self).at_block_end, //@w
     {
@@ -684,9 +687,10 @@ impl<D: TextDecorator> SubRenderer<D> {
 //@sub /filter\(srctext\)/ ==> filter.call(srctext)
 //@auto C01 C09
     fn add_inline_text(&mut self, text: &str) -> (r: Result<()>)
-        requires old(self).sr_inv(), old(self).headroom(), short(text@), tag_ok::<Vec<D::Annotation>>(), //@w
+        requires old(self).sr_inv(), old(self).room(), short(text@), tag_ok::<Vec<D::Annotation>>(), //@w
         ensures //@w
             r.is_ok() ==> final(self).sr_inv(), //@w @C02 #inline_text_inv
+            r.is_ok() ==> final(self).wtotal() <= old(self).wtotal() + 0x4_0000_0000 || final(self).wtotal() <= old(self).width + 0x4_0000_0000, //@w @C01 #inline_text_growth
             // inline text never touches the annotation / white-space / filter stacks or the configuration (C09) //@w
             final(self).same_stacks(old(self)) && final(self).same_config(old(self)) && final(self).decorator == old(self).decorator, //@w @C09 #inline_text_keeps_stacks
             old(self).options.allow_width_overflow ==> r.is_ok(), //@w @C11 #inline_text_overflow_ok
@@ -708,11 +712,10 @@ impl<D: TextDecorator> SubRenderer<D> {
         let mut s: Option<String> = None;
         // Do any filtering of the text
         for filter in it: &self.text_filter_stack
-            invariant //@w[
+            invariant //@w
                 self.sr_inv(), self.same_stacks(old(self)) && self.same_config(old(self)) && self.decorator == old(self).decorator, //@w
-                self.wrapping.is_none() || self.headroom(), //@w
+                self.wtotal() <= old(self).wtotal() || self.wtotal() <= self.width, //@w
                 self.lines@.len() >= old(self).lines@.len() && self.lines@.take(old(self).lines@.len() as int) =~= old(self).lines@, //@w
-            //@w]
         {
             let srctext = opt_as_deref_or(&s, text);
             if let Some(filtered) = filter.call(srctext) {
@@ -761,6 +764,7 @@ impl<D: TextDecorator> SubRenderer<D> {
             final(self).ws_stack@ == old(self).ws_stack@ && final(self).pre_depth == old(self).pre_depth && final(self).same_config(old(self)), //@w @C09 #start_keeps_other_stacks
             final(self).text_filter_stack@ == old(self).text_filter_stack@, //@w @C15 #filters_unchanged
             old(self).options.allow_width_overflow ==> r.is_ok(), //@w @C11
+            r.is_ok() ==> final(self).wtotal() <= old(self).wtotal() + 0x4_0000_0000 || final(self).wtotal() <= old(self).width + 0x4_0000_0000, //@w @C01 #growth_bound
     {
         let (s, annotation) = self.decorator.decorate_link_start(target);
         self.ann_stack.push(annotation);
@@ -781,6 +785,7 @@ impl<D: TextDecorator> SubRenderer<D> {
             final(self).ws_stack@ == old(self).ws_stack@ && final(self).pre_depth == old(self).pre_depth && final(self).same_config(old(self)), //@w @C09 #end_keeps_other_stacks
             final(self).text_filter_stack@ == old(self).text_filter_stack@, //@w @C15 #filters_unchanged
             old(self).options.allow_width_overflow ==> r.is_ok(), //@w @C11
+            r.is_ok() ==> final(self).wtotal() <= old(self).wtotal() + 0x4_0000_0000 || final(self).wtotal() <= old(self).width + 0x4_0000_0000, //@w @C01 #growth_bound
     {
         let s = self.decorator.decorate_link_end();
         self.add_inline_text(&s)?;
@@ -800,6 +805,7 @@ impl<D: TextDecorator> SubRenderer<D> {
             final(self).ws_stack@ == old(self).ws_stack@ && final(self).pre_depth == old(self).pre_depth && final(self).same_config(old(self)), //@w @C09 #start_keeps_other_stacks
             final(self).text_filter_stack@ == old(self).text_filter_stack@, //@w @C15 #filters_unchanged
             old(self).options.allow_width_overflow ==> r.is_ok(), //@w @C11
+            r.is_ok() ==> final(self).wtotal() <= old(self).wtotal() + 0x4_0000_0000 || final(self).wtotal() <= old(self).width + 0x4_0000_0000, //@w @C01 #growth_bound
     {
         let (s, annotation) = self.decorator.decorate_em_start();
         self.ann_stack.push(annotation);
@@ -820,6 +826,7 @@ impl<D: TextDecorator> SubRenderer<D> {
             final(self).ws_stack@ == old(self).ws_stack@ && final(self).pre_depth == old(self).pre_depth && final(self).same_config(old(self)), //@w @C09 #end_keeps_other_stacks
             final(self).text_filter_stack@ == old(self).text_filter_stack@, //@w @C15 #filters_unchanged
             old(self).options.allow_width_overflow ==> r.is_ok(), //@w @C11
+            r.is_ok() ==> final(self).wtotal() <= old(self).wtotal() + 0x4_0000_0000 || final(self).wtotal() <= old(self).width + 0x4_0000_0000, //@w @C01 #growth_bound
     {
         let s = self.decorator.decorate_em_end();
         self.add_inline_text(&s)?;
@@ -839,6 +846,7 @@ impl<D: TextDecorator> SubRenderer<D> {
             final(self).ws_stack@ == old(self).ws_stack@ && final(self).pre_depth == old(self).pre_depth && final(self).same_config(old(self)), //@w @C09 #start_keeps_other_stacks
             final(self).text_filter_stack@ == old(self).text_filter_stack@, //@w @C15 #filters_unchanged
             old(self).options.allow_width_overflow ==> r.is_ok(), //@w @C11
+            r.is_ok() ==> final(self).wtotal() <= old(self).wtotal() + 0x4_0000_0000 || final(self).wtotal() <= old(self).width + 0x4_0000_0000, //@w @C01 #growth_bound
     {
         let (s, annotation) = self.decorator.decorate_strong_start();
         self.ann_stack.push(annotation);
@@ -859,6 +867,7 @@ impl<D: TextDecorator> SubRenderer<D> {
             final(self).ws_stack@ == old(self).ws_stack@ && final(self).pre_depth == old(self).pre_depth && final(self).same_config(old(self)), //@w @C09 #end_keeps_other_stacks
             final(self).text_filter_stack@ == old(self).text_filter_stack@, //@w @C15 #filters_unchanged
             old(self).options.allow_width_overflow ==> r.is_ok(), //@w @C11
+            r.is_ok() ==> final(self).wtotal() <= old(self).wtotal() + 0x4_0000_0000 || final(self).wtotal() <= old(self).width + 0x4_0000_0000, //@w @C01 #growth_bound
     {
         let s = self.decorator.decorate_strong_end();
         self.add_inline_text(&s)?;
@@ -878,6 +887,7 @@ impl<D: TextDecorator> SubRenderer<D> {
             final(self).ws_stack@ == old(self).ws_stack@ && final(self).pre_depth == old(self).pre_depth && final(self).same_config(old(self)), //@w @C09 #start_keeps_other_stacks
             final(self).text_filter_stack@ == old(self).text_filter_stack@, //@w @C15 #filters_unchanged
             old(self).options.allow_width_overflow ==> r.is_ok(), //@w @C11
+            r.is_ok() ==> final(self).wtotal() <= old(self).wtotal() + 0x4_0000_0000 || final(self).wtotal() <= old(self).width + 0x4_0000_0000, //@w @C01 #growth_bound
     {
         let (s, annotation) = self.decorator.decorate_code_start();
         self.ann_stack.push(annotation);
@@ -899,6 +909,7 @@ impl<D: TextDecorator> SubRenderer<D> {
             final(self).ws_stack@ == old(self).ws_stack@ && final(self).pre_depth == old(self).pre_depth && final(self).same_config(old(self)), //@w @C09 #end_keeps_other_stacks
             final(self).text_filter_stack@ == old(self).text_filter_stack@, //@w @C15 #filters_unchanged
             old(self).options.allow_width_overflow ==> r.is_ok(), //@w @C11
+            r.is_ok() ==> final(self).wtotal() <= old(self).wtotal() + 0x4_0000_0000 || final(self).wtotal() <= old(self).width + 0x4_0000_0000, //@w @C01 #growth_bound
     {
         let s = self.decorator.decorate_code_end();
         self.add_inline_text(&s)?;
@@ -917,6 +928,7 @@ impl<D: TextDecorator> SubRenderer<D> {
             r.is_ok() ==> final(self).same_stacks(old(self)), //@w @C09 #image_annotation_scoped
             final(self).same_config(old(self)), //@w @C15
             old(self).options.allow_width_overflow ==> r.is_ok(), //@w @C11
+            r.is_ok() ==> final(self).wtotal() <= old(self).wtotal() + 0x4_0000_0000 || final(self).wtotal() <= old(self).width + 0x4_0000_0000, //@w @C01 #growth_bound
     {
         let (s, tag) = self.decorator.decorate_image(src, title);
         self.ann_stack.push(tag);
@@ -938,6 +950,7 @@ impl<D: TextDecorator> SubRenderer<D> {
             final(self).ws_stack@ == old(self).ws_stack@ && final(self).pre_depth == old(self).pre_depth && final(self).same_config(old(self)), //@w @C09 #start_keeps_other_stacks
             final(self).text_filter_stack@ == old(self).text_filter_stack@, //@w @C15 #filters_unchanged
             old(self).options.allow_width_overflow ==> r.is_ok(), //@w @C11
+            r.is_ok() ==> final(self).wtotal() <= old(self).wtotal() + 0x4_0000_0000 || final(self).wtotal() <= old(self).width + 0x4_0000_0000, //@w @C01 #growth_bound
     {
         let (s, annotation) = self.decorator.decorate_superscript_start();
         self.ann_stack.push(annotation);
@@ -959,6 +972,7 @@ impl<D: TextDecorator> SubRenderer<D> {
             final(self).ws_stack@ == old(self).ws_stack@ && final(self).pre_depth == old(self).pre_depth && final(self).same_config(old(self)), //@w @C09 #end_keeps_other_stacks
             final(self).text_filter_stack@ == old(self).text_filter_stack@, //@w @C15 #filters_unchanged
             old(self).options.allow_width_overflow ==> r.is_ok(), //@w @C11
+            r.is_ok() ==> final(self).wtotal() <= old(self).wtotal() + 0x4_0000_0000 || final(self).wtotal() <= old(self).width + 0x4_0000_0000, //@w @C01 #growth_bound
     {
         let s = self.decorator.decorate_superscript_end();
         self.add_inline_text(&s)?;
@@ -981,6 +995,7 @@ impl<D: TextDecorator> SubRenderer<D> {
             r.is_ok() && old(self).options.use_unicode_strikeout ==> final(self).text_filter_stack@.len() == old(self).text_filter_stack@.len() + 1 && final(self).text_filter_stack@.drop_last() == old(self).text_filter_stack@ && final(self).text_filter_stack@.last().is_strikeout(), //@w @C15 #strikeout_filter_pushed
             !old(self).options.use_unicode_strikeout ==> final(self).text_filter_stack@ == old(self).text_filter_stack@, //@w @C15 #no_filter_without_option
             old(self).options.allow_width_overflow ==> r.is_ok(), //@w @C11
+            r.is_ok() ==> final(self).wtotal() <= old(self).wtotal() + 0x4_0000_0000 || final(self).wtotal() <= old(self).width + 0x4_0000_0000, //@w @C01 #growth_bound
     {
         let (s, annotation) = self.decorator.decorate_strikeout_start();
         self.ann_stack.push(annotation);
@@ -1006,6 +1021,7 @@ impl<D: TextDecorator> SubRenderer<D> {
             r.is_ok() && old(self).options.use_unicode_strikeout ==> final(self).text_filter_stack@ == old(self).text_filter_stack@.drop_last(), //@w @C15 #strikeout_filter_popped
             !old(self).options.use_unicode_strikeout ==> final(self).text_filter_stack@ == old(self).text_filter_stack@, //@w @C15
             old(self).options.allow_width_overflow ==> r.is_ok(), //@w @C11
+            r.is_ok() ==> final(self).wtotal() <= old(self).wtotal() + 0x4_0000_0000 || final(self).wtotal() <= old(self).width + 0x4_0000_0000, //@w @C01 #growth_bound
     {
         if self.options.use_unicode_strikeout {
             self.text_filter_stack
@@ -1016,6 +1032,129 @@ impl<D: TextDecorator> SubRenderer<D> {
         self.add_inline_text(&s)?;
         self.ann_stack.pop();
         Ok(())
+    }
+//@end
+}
+
+// ---------------------------------------------------------------------------------------------
+// TextRenderer: the stack of sub-renderers plus the one global list of link targets (C08).
+// R12: `Deref`/`DerefMut` to the top of the stack is written out (`self.options` -> top.options, `self.add_inline_text` -> top.add_inline_text).
+// R6: `format!("[{}]", n)` -> fmt_footnote_ref(n).
+spec fn ref_text(n: usize) -> Seq<char>;
+#[verifier::external_body]
+fn fmt_footnote_ref(n: usize) -> (r: String) ensures r@ == ref_text(n), short(r@) { format!("[{}]", n) }
+// `target.to_string()`
+#[verifier::external_body]
+fn str_to_string(s: &str) -> (r: String) ensures r@ == s@ { s.to_string() }
+
+//@item src/render/text_renderer.rs :: struct TextRenderer
+struct TextRenderer<D: TextDecorator> {
+    subrender: Vec<SubRenderer<D>>,
+    links: Vec<String>,
+}
+//@end
+
+impl<D: TextDecorator> TextRenderer<D> {
+    spec fn top(&self) -> SubRenderer<D> { self.subrender@.last() }
+    // boundary (A6): the stack is never empty while rendering; the top renderer is well-formed and has headroom (A5)
+    spec fn tr_ok(&self) -> bool { self.subrender@.len() >= 1 && self.top().sr_inv() && self.top().headroom() }
+}
+impl<D: TextDecorator> TextRenderer<D> {
+//@item src/render/text_renderer.rs :: impl TextRenderer :: fn new
+//@sub /-> TextRenderer<D>/ ==> -> (r: TextRenderer<D>)
+//@auto C01 C08
+    fn new(subrenderer: SubRenderer<D>) -> (r: TextRenderer<D>)
+        ensures r.subrender@ == seq![subrenderer], //@w @C08 #one_renderer
+            r.links@.len() == 0, //@w @C08 #links_start_empty
+    {
+        TextRenderer {
+            subrender: vec![subrenderer],
+            links: Vec::new(),
+        }
+    }
+//@end
+//@item src/render/text_renderer.rs :: impl TextRenderer :: fn start_link
+//@sub /-> Result<\(\)>/ ==> -> (r: Result<()>)
+//@sub /target\.to_string\(\)/ ==> str_to_string(target)
+//@auto C01 C08
+    fn start_link(&mut self, target: &str) -> (r: Result<()>)
+        requires old(self).tr_ok(), tag_ok::<Vec<D::Annotation>>(), //@w
+        ensures //@w
+            // the target of every link is recorded exactly once, in document order, in the ONE list shared by all sub-renderers (C08) //@w
+            final(self).links@.len() == old(self).links@.len() + 1 && final(self).links@.drop_last() == old(self).links@ && final(self).links@.last()@ == target@, //@w @C08 #link_target_recorded
+            final(self).subrender@.len() == old(self).subrender@.len() && final(self).subrender@.drop_last() == old(self).subrender@.drop_last(), //@w @C08 #start_link_touches_only_top
+            final(self).top().ann_stack@.len() == old(self).top().ann_stack@.len() + 1 && final(self).top().ann_stack@.drop_last() == old(self).top().ann_stack@, //@w @C09 #link_annotation_pushed
+            old(self).top().options.allow_width_overflow ==> r.is_ok(), //@w @C11
+    {
+        self.links.push(str_to_string(target));
+        self.subrender.last_mut().unwrap().start_link(target)?;
+        Ok(())
+    }
+//@end
+//@item src/render/text_renderer.rs :: impl TextRenderer :: fn end_link
+//@sub /-> Result<\(\)>/ ==> -> (r: Result<()>)
+//@sub /if self\.options\.include_link_footnotes/ ==> if self.subrender[self.subrender.len() - 1].options.include_link_footnotes
+//@sub /self\.add_inline_text\(&format!\("\[\{\}\]", footnote_num\)\)\?;/ ==> self.subrender.last_mut().unwrap().add_inline_text(&fmt_footnote_ref(footnote_num))?;
+//@auto C01 C08
+    fn end_link(&mut self) -> (r: Result<()>)
+        requires old(self).tr_ok(), tag_ok::<Vec<D::Annotation>>(), old(self).top().ann_stack@.len() > 0, //@w
+        ensures //@w
+            final(self).links@ == old(self).links@, //@w @C08 #end_link_keeps_links
+            final(self).subrender@.len() == old(self).subrender@.len() && final(self).subrender@.drop_last() == old(self).subrender@.drop_last(), //@w @C08 #end_link_touches_only_top
+            r.is_ok() ==> final(self).top().ann_stack@ == old(self).top().ann_stack@.drop_last(), //@w @C09 #link_annotation_popped
+            old(self).top().options.allow_width_overflow ==> r.is_ok(), //@w @C11
+    {
+        self.subrender.last_mut().unwrap().end_link()?;
+        let ghost opt0 = old(self).top().options.include_link_footnotes; //@w
+        assert(self.top().options.include_link_footnotes == opt0); //@w @C15 #footnote_switch_read_from_options
+
+        if self.subrender[self.subrender.len() - 1].options.include_link_footnotes {
+            let footnote_num = self.links.len();
+            // the reference printed after the k-th link is [k]: the number of targets recorded so far (C08) //@w
+            assert(footnote_num == old(self).links@.len()); //@w @C08 #reference_number_is_link_position
+            self.subrender.last_mut().unwrap().add_inline_text(&fmt_footnote_ref(footnote_num))?;
+        }
+        Ok(())
+    }
+//@end
+//@item src/render/text_renderer.rs :: impl TextRenderer :: fn push
+//@auto C01 C08
+    fn push(&mut self, builder: SubRenderer<D>)
+        ensures final(self).subrender@ == old(self).subrender@.push(builder) && final(self).links@ == old(self).links@, //@w @C08 #push_keeps_links
+    {
+        self.subrender.push(builder);
+    }
+//@end
+//@item src/render/text_renderer.rs :: impl TextRenderer :: fn pop
+//@sub /-> SubRenderer<D>/ ==> -> (r: SubRenderer<D>)
+//@auto C01 C08
+    fn pop(&mut self) -> (r: SubRenderer<D>)
+        requires old(self).subrender@.len() >= 1, //@w @C01 #pop_nonempty
+        ensures r == old(self).subrender@.last() && final(self).subrender@ == old(self).subrender@.drop_last() && final(self).links@ == old(self).links@, //@w @C08 #pop_keeps_links
+    {
+        self.subrender
+            .pop()
+            .expect("Attempt to pop a subrender from empty stack")
+    }
+//@end
+//@item src/render/text_renderer.rs :: impl TextRenderer :: fn into_inner
+//@sub /-> \(SubRenderer<D>, Vec<String>\)/ ==> -> (r: (SubRenderer<D>, Vec<String>))
+//@sub /fn into_inner\(mut self\)/ ==> fn into_inner(self)
+//@sub /assert_eq!\(self\.subrender\.len\(\), 1\);/ ==> let mut this = self;\n        assert!(this.subrender.len() == 1);
+//@sub /self\.subrender\s*\.pop\(\)/ ==> this.subrender.pop()
+//@sub /self\.links,/ ==> this.links,
+//@auto C01 C08
+    fn into_inner(self) -> (r: (SubRenderer<D>, Vec<String>))
+        requires self.subrender@.len() == 1, //@w @C01 #into_inner_single
+        ensures r.0 == self.subrender@[0] && r.1@ == self.links@, //@w @C08 #all_links_handed_to_finalise
+    {
+        let mut this = self;
+        assert!(this.subrender.len() == 1);
+        (
+            this.subrender.pop()
+                .expect("Attempt to pop a subrenderer from an empty stack"),
+            this.links,
+        )
     }
 //@end
 }
